@@ -23,7 +23,15 @@ for d in sorted(glob.glob(os.path.join(root, "seeded", "*")), key=lambda p: (os.
             clause = m.group(1)
     ok = conf["applies"] and conf["tests_rc_with_change"] == 0 and conf["demo_rc_with_change"] != 0 and conf["demo_rc_without_change"] == 0
     summ = re.sub(r"\s+", " ", meta["summary"])[:150].replace("|", "/")
-    rows.append(f"| {sid} | {summ} | {'yes' if ok else 'NO'} | {'**caught** (' + clause + ')' if conf['own_check_rc_with_change'] == 1 else 'rc=' + str(conf['own_check_rc_with_change'])} |")
+    own = '**caught** (' + clause + ')' if conf['own_check_rc_with_change'] == 1 else 'rc=' + str(conf['own_check_rc_with_change'])
+    if conf['own_check_rc_with_change'] != 1:
+        if meta.get("caught_by_sibling_check"):
+            own += f" - caught by {meta['caught_by_sibling_check']}"
+        elif meta.get("not_covered_deliberately"):
+            own += f" - not covered, deliberately ({meta['not_covered_deliberately']})"
+        elif meta.get("status_note"):
+            own += " - neutralised by a repair (see text)"
+    rows.append(f"| {sid} | {summ} | {'yes' if ok else 'NO'} | {own} |")
 print("| id | change (abridged) | confirmed (suite green, demo fails with / passes without) | own check, quick tier, seed 0 |")
 print("|---|---|---|---|")
 print("\n".join(rows))
